@@ -20,7 +20,9 @@ def litTables : Tables :=
            [none, none, none, none, none, some 0, none, none, none],
            [none, some 0, none, none, some 15, none, none, none, none],
            [none, none, none, none, none, none, none, none, none]],
-    uncmd := [true, false, false, false, false, true, true, false] }
+    uncmd := [true, false, false, false, false, true, true, false],
+    fault := 5,
+    preCw := 0 }
 
 
 /-- all 8 start states × both values of the controlword's reset bit -/
@@ -45,25 +47,25 @@ def chkSafe (pdo auto12 : Bool) (t : Nat) : Bool :=
   checkClosed litTables PState.num pdo auto12 t (inits pdo auto12 t) goodSafe (visSafe pdo auto12 t)
 
 
-/-- start configurations of the progress theorem: without FAULT / FAULT REACTION ACTIVE under a
-    controlword whose bit 7 is already set (see `fault_reset_needs_edge`) -/
-def initsProg (pdo auto12 : Bool) (target : Nat) : List Cfg :=
-  PState.all.flatMap fun s =>
-    if s = .fault ∨ s = .fra then [initCfg pdo auto12 target s false]
-    else [initCfg pdo auto12 target s false, initCfg pdo auto12 target s true]
-
-
 def goodProg (c : Cfg) : Bool :=
   c.pc != .illegal && c.pc != .refused && (c.pc != .done || seen PState.num c == c.target) &&
   timeoutOnlyFatal litTables PState.num c
 
 def visProg (pdo auto12 : Bool) (t : Nat) : List Cfg :=
-  exploreFrom litTables PState.num (initsProg pdo auto12 t)
+  exploreFrom litTables PState.num (inits pdo auto12 t)
 
 def chkProg (pdo auto12 : Bool) (t : Nat) : Bool :=
-  checkClosed litTables PState.num pdo auto12 t (initsProg pdo auto12 t) goodProg (visProg pdo auto12 t) &&
+  checkClosed litTables PState.num pdo auto12 t (inits pdo auto12 t) goodProg (visProg pdo auto12 t) &&
   checkRanked litTables PState.num (visProg pdo auto12 t)
     (rankDfs litTables PState.num 100000 (visProg pdo auto12 t) 0)
 
+/-- "the setter has ended, or the drive is in the target state" -/
+def stopEnter (c : Cfg) : Bool := c.pc.terminal || c.st.num == c.target
+
+/-- progress towards `stopEnter`, for the drives that leave QUICK STOP ACTIVE by themselves -/
+def chkEnter (pdo auto12 : Bool) (t : Nat) : Bool :=
+  checkClosed litTables PState.num pdo auto12 t (inits pdo auto12 t) goodProg (visProg pdo auto12 t) &&
+  checkRankedS litTables PState.num stopEnter (visProg pdo auto12 t)
+    (rankDfsS litTables PState.num stopEnter 100000 (visProg pdo auto12 t) 0)
 
 end Canopen.P402
